@@ -26,11 +26,21 @@ Oracle (independent of the Lean model), after EVERY edit, on the real objects:
     reading the same file gets the same answers, unknown names / ids are refused.
 Tie: the same scripts go to the Lean driver `config`; outcome, canonical
 to_dict(), used_sockets, round-trip flag after every edit and both lookup
-tables for the three roles are compared."""
+tables for the three roles are compared.
+
+CLI stage (harness/cli_cases.py, called at the end of run): command scripts
+`simulaqron nodes add/remove/default/get`, `reset`, `set network-config-file`,
+... run through the real click commands, one fresh interpreter per command;
+the network file each command leaves behind is judged by oracle_state above
+(plus oracles of the glue: the edit lands in the named network and nowhere
+else, a refused / declined / malformed command changes nothing) and compared
+with the same driver (a CLI process is `reload` + the edit)."""
 import json
 import os
+import sys
 
 from .. import core
+from .. import cli_cases as cli    # CLI stage: the click commands `simulaqron nodes ... / reset`, one process per command
 
 LEAN_TARGETS = ["SqVerif.Props.C16"]
 PROPS_FILE = "SqVerif/Props/C16.lean"
@@ -40,6 +50,11 @@ TRUSTED = [
     "branch fix-c16); tied by differential execution after every edit (this check)",
     "the OS bind probe _check_socket_is_free is replaced by a scripted function (theorems hold for every such function)",
     "Python dict = insertion-ordered association list; json.dump/json.load = the abstract JSON value of the model",
+    "CLI stage (harness/cli_cases.py): every `simulaqron nodes ...` / `reset` command is a fresh interpreter on the console "
+    "entry point in a private installation directory; the OS bind probe is scripted at socket.socket.bind of that "
+    "interpreter; the package `daemons` (not installed here) is a recording stand-in (harness/cli_shims), nothing is launched; "
+    "the translation command -> model edits (process = reload, default file created at start-up = new+reset, nodes default = "
+    "add_network of the five names) is hand-written in cli_cases.py and tied by comparing the written file after every command",
 ]
 ASSUMPTIONS = [
     "a host is its configured string (the code's own notion): two strings resolving to one address are different hosts",
@@ -573,6 +588,11 @@ def run(ctx):
     if mods["get_name"] is None:
         res.notes.append("host_config.get_node_name_from_net_config missing: id->name compared only through SimulaQronNetworkInfo")
     rng = ctx.rng
+    # ---- CLI stage, replay of one of its scripts -------------------------------------------------------------------
+    if ctx.replay and ctx.replay["input"].get("cli") == "c16":
+        cli.stage_c16(ctx, res, sys.modules[__name__], mods, replay_script=ctx.replay["input"]["script"])
+        return res
+    # ----------------------------------------------------------------------------------------------------------------
     if ctx.replay:
         scripts = [ctx.replay["input"]["script"]]
     else:
@@ -615,6 +635,10 @@ def run(ctx):
                 reported.add(si)
                 res.tie_break("Config model vs NetworksConfigConstructor/SocketsConfig at `%s`" % line,
                               {"script": scripts[si], "lines": [line_of(e) for e in scripts[si]]}, got, want)
+    # ---- CLI stage (harness/cli_cases.py): the same oracle and the same model driver behind the real commands ------
+    if not ctx.replay:
+        cli.stage_c16(ctx, res, sys.modules[__name__], mods)
+    # ----------------------------------------------------------------------------------------------------------------
     return res
 
 
